@@ -47,7 +47,7 @@ type caseT struct {
 	Depth    int
 	A        string // hook point at which operation A parks
 	B        string // close | cancel | close2 | publish | subscribe
-	Consumer string // reading | notreading | holding | nacking
+	Consumer string // reading | notreading | holding | nacking | nackonce (nacks the first message, then never reads again: the re-delivery stays unread)
 }
 
 func (c caseT) id() string {
@@ -76,7 +76,7 @@ func allCases() []caseT {
 							continue
 						}
 						for _, b := range []string{"close", "cancel", "close2", "publish", "subscribe", "subscribe-done-ctx"} {
-							for _, cons := range []string{"reading", "notreading", "holding", "nacking"} {
+							for _, cons := range []string{"reading", "notreading", "holding", "nacking", "nackonce"} {
 								out = append(out, caseT{cfgT{buf, pers, block}, depth, a, b, cons})
 							}
 						}
@@ -229,7 +229,17 @@ func runCase(c caseT) (viol []string, forced bool) {
 			}
 		}
 	}
-	if c.Consumer != "notreading" {
+	// nackonce: from its single Nack on this consumer is one that does not read
+	notReading := c.Consumer == "notreading" || c.Consumer == "nackonce"
+	nackedOnce := make(chan struct{})
+	if c.Consumer == "nackonce" {
+		go func() {
+			if m, ok := <-ch1; ok {
+				m.Nack()
+			}
+			close(nackedOnce)
+		}()
+	} else if !notReading {
 		go consumer1()
 	}
 	pubN := 0
@@ -239,10 +249,17 @@ func runCase(c caseT) (viol []string, forced bool) {
 		return func() error { return g.Publish("T", message.NewMessage(id, []byte(id))) }
 	}
 	var outstanding []*callRes
-	if c.Consumer == "holding" || c.Consumer == "nacking" {
+	if c.Consumer == "holding" || c.Consumer == "nacking" || c.Consumer == "nackonce" {
 		p0 := call("Publish(m0)", publish("m0"))
 		outstanding = append(outstanding, p0)
-		if c.Consumer == "holding" {
+		if c.Consumer == "nackonce" {
+			select {
+			case <-nackedOnce:
+			case <-time.After(lib.Live):
+				bad("liveness: first message not delivered")
+			}
+			time.Sleep(200 * time.Microsecond)
+		} else if c.Consumer == "holding" {
 			select {
 			case <-holding:
 			case <-time.After(lib.Live):
@@ -336,7 +353,7 @@ func runCase(c caseT) (viol []string, forced bool) {
 			}
 		}
 		if returned {
-			if c.Consumer == "notreading" {
+			if notReading {
 				drainStarted = true
 				go func() {
 					defer close(closed1)
@@ -378,13 +395,13 @@ func runCase(c caseT) (viol []string, forced bool) {
 		// goroutine that is stuck on the unread channel (the receive itself frees it), so first, without reading: the
 		// forwarding goroutines of the cancelled subscription must end. Only where the count is unambiguous: the two
 		// subscriptions of this entry are the only ones (A and B are not Subscribe calls).
-		if c.Consumer == "notreading" && c.Depth > 0 && c.B != "subscribe" && !strings.Contains(c.A, ".subscribe.") {
+		if notReading && c.Depth > 0 && c.B != "subscribe" && !strings.Contains(c.A, ".subscribe.") {
 			if !lib.WaitUntil(lib.Live, func() bool { n, _ := pumpGoroutines(); return n <= c.Depth }) {
 				n, sample := pumpGoroutines()
 				bad("cancel: %d decorator forwarding goroutines are alive %v after the unread subscription was cancelled, want %d (those of the other subscription), e.g.\n%s", n, lib.Live, c.Depth, sample)
 			}
 		}
-		if c.Consumer == "notreading" {
+		if notReading {
 			go func() {
 				defer close(closed1)
 				for m := range ch1 {
@@ -430,7 +447,7 @@ func runCase(c caseT) (viol []string, forced bool) {
 		bad("panic in Close: %v", fin.pnc)
 	}
 	// after Close: channels closed, calls refused, no goroutines
-	if c.Consumer == "notreading" && !(cancelled1 && !closedByB) && !drainStarted {
+	if notReading && !(cancelled1 && !closedByB) && !drainStarted {
 		go func() {
 			defer close(closed1)
 			for range ch1 {
